@@ -1,5 +1,220 @@
-"""Sensitivity sweep of the checker itself (thorough tier); filled in later."""
+"""Sensitivity sweep of the checker itself.
+
+Mutants are small property-breaking edits of the *current* /repo source, applied in
+memory through the model's overlay (nothing is written under /repo or /verif); the
+named rule must report each one.  Twins are behaviour-preserving rewrites on which
+every rule of the property must stay silent.  Seeded changes collected from
+independent sub-agents (/verif/seeded/<id>/patch.diff) are replayed the same way.
+
+The sweep tests the *checker*; it never changes the verdict about /repo.  A variant
+whose anchor text is no longer present (because /repo was edited) is counted as
+skipped.
+
+  python -m sa.selftest            all properties, prints the kill matrix
+  python -m sa.selftest C13        one property
+"""
+from __future__ import annotations
+
+import json
+import os
+import subprocess
+import sys
+import tempfile
+from concurrent.futures import ProcessPoolExecutor
+from typing import Dict, List, Optional, Tuple
+
+from .framework import OK, UNDECIDED, VERIF, VIOLATION, load_known_findings, run_property
 
 
-def sweep(prop, repo):
-    return {}
+def _read(repo, rel):
+    with open(os.path.join(repo, rel), "rb") as fh:
+        return fh.read().decode("utf-8", "surrogateescape").replace("\r\n", "\n")
+
+
+def _variants():
+    from .selftest_data import MUTANTS, TWINS
+
+    return MUTANTS, TWINS
+
+
+def _baseline_keys(prop, repo):
+    _, results, _ = run_property(prop, repo, "quick")
+    return {(r.rule, r.construct) for r in results if r.verdict == VIOLATION}
+
+
+def run_variant(args):
+    prop, repo, vid, edits, base = args
+    overlay = {}
+    for rel, old, new in edits:
+        src = overlay.get(rel) or _read(repo, rel)
+        if src.count(old) < 1:
+            return vid, "skipped", []
+        overlay[rel] = src.replace(old, new, 1)
+    try:
+        _, results, _ = run_property(prop, repo, "quick", overlay=overlay)
+    except Exception as err:  # noqa
+        return vid, "error", [repr(err)]
+    new_v = [(r.rule, r.construct, r.what[:140]) for r in results if r.verdict == VIOLATION and (r.rule, r.construct) not in base]
+    und = [(r.rule, r.construct, r.what[:140]) for r in results if r.verdict == UNDECIDED]
+    if new_v:
+        return vid, "violation", new_v
+    if und:
+        return vid, "undecided", und
+    return vid, "silent", []
+
+
+def seeded_variants(prop, repo) -> List[Tuple[str, list]]:
+    """Seeded patches for this property turned into overlay edits by applying the patch to a scratch copy."""
+    out = []
+    sdir = os.path.join(VERIF, "seeded")
+    if not os.path.isdir(sdir):
+        return out
+    for name in sorted(os.listdir(sdir)):
+        meta_p = os.path.join(sdir, name, "meta.json")
+        patch_p = os.path.join(sdir, name, "patch.diff")
+        if not (os.path.exists(meta_p) and os.path.exists(patch_p)):
+            continue
+        with open(meta_p) as fh:
+            meta = json.load(fh)
+        if meta.get("property") != prop:
+            continue
+        out.append((name, patch_p, meta))
+    return out
+
+
+def apply_patch_overlay(repo, patch_path) -> Optional[Dict[str, str]]:
+    """Apply a unified diff to a scratch copy of the touched files (tempdir, removed) and return {rel: new source}."""
+    with open(patch_path) as fh:
+        text = fh.read()
+    files = []
+    for line in text.splitlines():
+        if line.startswith("+++ "):
+            p = line[4:].split("\t")[0].strip()
+            if p.startswith("b/"):
+                p = p[2:]
+            if p != "/dev/null":
+                files.append(p)
+    tmp = tempfile.mkdtemp(prefix="sa-seeded-")
+    try:
+        for rel in files:
+            src = os.path.join(repo, rel)
+            dst = os.path.join(tmp, rel)
+            os.makedirs(os.path.dirname(dst), exist_ok=True)
+            if os.path.exists(src):
+                with open(src, "rb") as a, open(dst, "wb") as b:
+                    b.write(a.read())
+        r = subprocess.run(["patch", "-p1", "-s", "--no-backup-if-mismatch", "-i", patch_path], cwd=tmp, capture_output=True, text=True)
+        if r.returncode != 0:
+            return None
+        out = {}
+        for rel in files:
+            with open(os.path.join(tmp, rel), "rb") as fh:
+                out[rel] = fh.read().decode("utf-8", "surrogateescape").replace("\r\n", "\n")
+        return out
+    finally:
+        import shutil
+
+        shutil.rmtree(tmp, ignore_errors=True)
+
+
+def run_seeded(args):
+    prop, repo, name, patch_p, base = args
+    ov = apply_patch_overlay(repo, patch_p)
+    if ov is None:
+        return name, "skipped", []
+    _, results, _ = run_property(prop, repo, "quick", overlay=ov)
+    new_v = [(r.rule, r.construct, r.what[:140]) for r in results if r.verdict == VIOLATION and (r.rule, r.construct) not in base]
+    und = [(r.rule, r.construct, r.what[:140]) for r in results if r.verdict == UNDECIDED]
+    return name, ("violation" if new_v else "undecided" if und else "silent"), new_v or und
+
+
+def sweep(prop: str, repo: str, jobs: int = 16, verbose=False) -> dict:
+    MUTANTS, TWINS = _variants()
+    base = _baseline_keys(prop, repo)
+    muts = MUTANTS.get(prop, [])
+    twins = TWINS.get(prop, [])
+    tasks = [(prop, repo, m["id"], m["edits"], base) for m in muts] + [(prop, repo, t["id"], t["edits"], base) for t in twins]
+    seeded = seeded_variants(prop, repo)
+    res = {}
+    if tasks or seeded:
+        with ProcessPoolExecutor(max_workers=jobs) as ex:
+            for vid, status, detail in ex.map(run_variant, tasks):
+                res[vid] = (status, detail)
+            for name, status, detail in ex.map(run_seeded, [(prop, repo, n, p, base) for n, p, _ in seeded]):
+                res["seeded:" + name] = (status, detail)
+    killed, missed, wrong_rule, skipped = [], [], [], []
+    for m in muts:
+        status, detail = res[m["id"]]
+        if status == "skipped":
+            skipped.append(m["id"])
+        elif status == "violation":
+            rules = {d[0] for d in detail}
+            if not m.get("rules") or rules & set(m["rules"]):
+                killed.append(m["id"])
+            else:
+                wrong_rule.append((m["id"], sorted(rules)))
+                killed.append(m["id"])
+        else:
+            missed.append((m["id"], status))
+    twin_silent, twin_alarm = [], []
+    for t in twins:
+        status, detail = res[t["id"]]
+        if status in ("silent",):
+            twin_silent.append(t["id"])
+        elif status == "skipped":
+            skipped.append(t["id"])
+        else:
+            twin_alarm.append((t["id"], status, detail[:2]))
+    seeded_caught = [n for n, _, _ in seeded if res.get("seeded:" + n, ("",))[0] == "violation"]
+    seeded_missed = [n for n, _, _ in seeded if res.get("seeded:" + n, ("",))[0] not in ("violation", "skipped")]
+    out = {
+        "selftest": {
+            "mutants_generated": len(muts),
+            "mutants_killed": len(killed),
+            "mutants_missed": missed,
+            "mutants_reported_by_other_rule": wrong_rule,
+            "twins": len(twins),
+            "twins_silent": len(twin_silent),
+            "twin_alarms": twin_alarm,
+            "seeded_changes": [n for n, _, _ in seeded],
+            "seeded_caught": seeded_caught,
+            "seeded_missed": seeded_missed,
+            "skipped": skipped,
+            "note": "the sweep exercises the checker on in-memory variants of the current source; it never affects the verdict about /repo",
+        }
+    }
+    if verbose:
+        out["detail"] = {k: v for k, v in res.items()}
+    return out
+
+
+def main(argv):
+    from . import rules
+
+    repo = "/repo"
+    props = [a for a in argv if a.startswith("C")] or sorted(rules.MODULES)
+    bad = 0
+    for p in props:
+        r = sweep(p, repo, verbose=True)
+        s = r["selftest"]
+        print(f"{p}: mutants {s['mutants_killed']}/{s['mutants_generated']} killed, twins {s['twins_silent']}/{s['twins']} silent, seeded {len(s['seeded_caught'])}/{len(s['seeded_changes'])}, skipped {len(s['skipped'])}")
+        for m in s["mutants_missed"]:
+            print("   MISSED", m, r["detail"].get(m[0]))
+            bad += 1
+        for t in s["twin_alarms"]:
+            print("   TWIN-ALARM", t)
+            bad += 1
+        for m in s["mutants_reported_by_other_rule"]:
+            print("   other-rule", m)
+        for m in s["seeded_missed"]:
+            print("   SEEDED-MISSED", m, r["detail"].get("seeded:" + m))
+        for m in s["skipped"]:
+            print("   skipped", m)
+        if "-v" in argv:
+            for k, v in r["detail"].items():
+                print("    ", k, v[0], v[1][:1])
+    return 1 if bad else 0
+
+
+if __name__ == "__main__":
+    sys.exit(main(sys.argv[1:]))
